@@ -239,6 +239,19 @@ func init() {
 			}
 			return m
 		}
+		copyMap := func(src *Map) *Map {
+			m := newMap()
+			for _, e := range src.live() {
+				vals := e.v.(Slice)
+				cp := make([]Value, len(vals.a))
+				copy(cp, vals.a)
+				ex.mapSet(m, e.k, Slice{cp})
+			}
+			return m
+		}
+		if src, ok := ex.queryFromToken((*u).(Struct)[8].(Str)); ok {
+			return copyMap(src)
+		}
 		// no side table: RawQuery must be concrete
 		raw, ok := (*u).(Struct)[8].(Str).concrete()
 		if !ok {
